@@ -165,7 +165,8 @@ class PP:
                         names = ['M0']
                         text.append(self.define('M0', names))
             elif k < 0.75:
-                text.append(r.choice(['#', '#pragma once q', '# 12 "other.c"', '#line 50', '#line 7 "x.h"']))
+                text.append(r.choice(['#', '#pragma once q', '# 12 "other.c"', '#line 50', '#line 7 "x.h"', '#pragma weak %s' % r.choice(names), '#pragma %s ( x' % r.choice(names), '#pragma %s' % r.choice(names),
+                                      '#pragma omp %s (1, 2) %s' % (r.choice(names), r.choice(names))]))
             else:
                 text.append(' '.join(r.choice(WORDS) for _ in range(r.randrange(1, 6))) + ' ;')
         return '\n'.join(lines + text) + '\n'
@@ -186,6 +187,15 @@ REDEF = [
     ('#define A a*b', '#define A a *b', False), ('#define A a+b', '#define A a+ b', False), ('#define A p->q', '#define A p ->q', False), ('#define A a.b', '#define A a. b', False), ('#define A (a)', '#define A (a )', False),
     ('#define A a/**/b', '#define A a b', True), ('#define A a/**/b', '#define A ab', False), ('#define A a/b/**/', '#define A a/b', True), ('#define A /**/a/b', '#define A a/b', True),
     ('#define A ab', '#define A a b', False), ('#define A a\\\nb', '#define A ab', True), ('#define A +', '#define A + ', True), ('#define A . .', '#define A ..', False),
+]
+
+
+# redefinition after the macro has been expanded: (first, uses in between, second, compatible?)
+REDEF_USED = [
+    ('#define A 100', 'int a[A]; int b = -A; int c = (A);', '#define A 100', True), ('#define A(x) x + 1', 'int a = -A(2); int b[A(3)]; int c = (A(1));', '#define A(x) x + 1', True),
+    ('#define A() 5', 'int a = (A()); int b = A() + A ();', '#define A() 5', True), ('#define A x y', 'int x, y; int q = sizeof(int[3])*A;', '#define A x  y', True), ('#define A 1', 'int a[A]; int b = A;', '#define A 2', False),
+    ('#define A (1)', 'int a=A; int b = A;', '#define A (1)', True), ('#define A(x) #x', 'char *p=A(q); char *r = A( q );', '#define A(x) #x', True), ('#define A B', 'int B; int c = B+A;', '#define A B', True),
+    ('#define A B A', 'int B; int k = 0*B A;', '#define A B A', True), ('#define A(x) x', 'int q=A(1)+A (2)+A\n(3);', '#define A(y) y', False),
 ]
 
 
